@@ -368,7 +368,7 @@ TIMERS_RULE = ("scripted scenarios over three timer ids with delays of 10-120 ms
 
 PROPS = {
     "C01": {
-        "modules": ["Sheens.Props.C01", "Sheens.Props.MatchTotal", "Sheens.Props.TrMatch", "Sheens.Props.TrIneq"],
+        "modules": ["Sheens.Props.C01", "Sheens.Props.MatchTotal", "Sheens.Props.TrMatch", "Sheens.Props.TrIneq", "Sheens.Props.TrMatchArms"],
         "theorems": ["Sheens.C01.match_sound", "Sheens.C01.Witness.sat", "Sheens.MatchTotal.satB_sound"],
         "facts": ["matcher_switches", "ineq_ops", "name_conventions"],
         "runs": {
@@ -380,7 +380,7 @@ PROPS = {
         "rule": MATCH_RULE,
     },
     "C02": {
-        "modules": ["Sheens.Props.C02", "Sheens.Props.C02Exact", "Sheens.Props.TrMatch", "Sheens.Props.TrIneq"],
+        "modules": ["Sheens.Props.C02", "Sheens.Props.C02Exact", "Sheens.Props.TrMatch", "Sheens.Props.TrIneq", "Sheens.Props.TrMatchArms"],
         "theorems": [],
         "facts": ["matcher_switches", "name_conventions"],
         "runs": {
